@@ -30,6 +30,16 @@ def esc(w):
     return ''.join(('\\' + c) if c in ' \'"\\' else c for c in w)
 
 
+def render(rng, w):
+    """one of the ways to write the word in a string: backslash escapes, or the whole word inside single or double
+    quotes (a quote character or backslash inside is then escaped by a backslash)"""
+    style = rng.below(4)
+    if style <= 1 or w == '':
+        return esc(w)
+    q = "'" if style == 2 else '"'
+    return q + ''.join(('\\' + c) if c in (q, '\\') else c for c in w) + q
+
+
 def _split_ref(s):
     """reference splitting used only by the oracle of random quoted inputs"""
     out = []; cur = ''; inq = False; q = '-'; bs = False
@@ -93,6 +103,13 @@ def gen_cases(tier, rng):
     cases.append('H:f=0 arg:i:i0: arg:arg-file:af0: argv:2d2d6172672d66696c65,6e6f66696c65 exp:reject kind:named-file')
     cases.append('H:f=0 arg:i:i0: arg:arg-file:af0: xfile:%s:%s argv:2d69,38,2d2d6172672d66696c65,66312e7061,2d69,39 exp:reject kind:named-file'
                  % (A.hx('f1.pa'), A.hx('-i 5\n')))
+    # an environment variable whose first and last words are quoted with the same quote character
+    for q in ("'", '"'):
+        env = '%sin file%s -i 5 -n %smy name%s' % (q, q, q, q)
+        cases.append('H:f=32 arg:-:s0: arg:i:i0: arg:n:s1: env:%s argv:- exp:i0=5;s0=s%s;s1=s%s kind:sources'
+                     % (A.hx(env), A.hx('in file'), A.hx('my name')))
+        env = '%s--name=my name%s' % (q, q)
+        cases.append('H:f=32 arg:name:s0: arg:i:i0: env:%s argv:2d69,37 exp:i0=7;s0=s%s kind:sources' % (A.hx(env), A.hx('my name')))
     # the separate values of a multi-value argument continue across the delivery boundaries (file line / file line,
     # file / environment, environment / command line, named file / rest of the line)
     mv = 'arg:v,values:vi0:multi arg:f:b0:init=0 '
@@ -142,13 +159,13 @@ def gen_cases(tier, rng):
             for pu in per_use:
                 cur += pu
                 if rng.chance(1, 2):
-                    real = ' '.join(esc(w) for w in cur)
+                    real = ' '.join(render(rng, w) for w in cur)
                     hash_line = hash_line or real.startswith('#')
                     lines.append(real); cur = []
                     if rng.chance(1, 3):
                         lines.append(rng.choice(['', '# comment -x', '#']))
             if cur:
-                real = ' '.join(esc(w) for w in cur)
+                real = ' '.join(render(rng, w) for w in cur)
                 hash_line = hash_line or real.startswith('#')
                 lines.append(real)
             if hash_line:
@@ -157,7 +174,7 @@ def gen_cases(tier, rng):
             extra.append('file:' + A.hx(content))
         if parts[1] or rng.chance(1, 3):
             flags |= 0x20
-            extra.append('env:' + A.hx(' '.join(esc(w) for w in words[1])))
+            extra.append('env:' + A.hx(' '.join(render(rng, w) for w in words[1])))
         if any(w == '' for ws_ in words[:2] for w in ws_):
             continue      # an empty word cannot be delivered through a string
         exp = G.expected_store(args, uses)
@@ -198,7 +215,7 @@ def gen_cases(tier, rng):
                 continue
             words[where] = neww
             extra = [e for e in extra if not e.startswith('env:')] + \
-                    (['env:' + A.hx(' '.join(esc(w) for w in words[1]))] if flags & 0x20 else [])
+                    (['env:' + A.hx(' '.join(render(rng, w) for w in words[1]))] if flags & 0x20 else [])
             argtoks.append('arg:arg-file:af0:')
             extra += ['xfile:%s:%s' % (A.hx(n), A.hx(t)) for n, t in xf]
             kind = 'named-file'
